@@ -581,6 +581,16 @@ func (st *pvState) allocContents(a *ssa.Alloc, path []string, fr *frame) bool {
 					visitRefs(nested, next, inFr)
 					found = found || saveFound
 				}
+			case *ssa.IndexAddr:
+				// array literal elements (varargs, []T{...})
+				if len(path) == 0 && len(cur) == 0 {
+					for _, rr := range *x.Referrers() {
+						if s2, ok := rr.(*ssa.Store); ok && s2.Addr == x {
+							found = true
+							st.walk(s2.Val, inFr)
+						}
+					}
+				}
 			case *ssa.MakeClosure:
 				// stores inside closures that capture the variable by reference
 				fn, _ := x.Fn.(*ssa.Function)
